@@ -128,7 +128,8 @@ def run_case(case, want_trace=False):
 
         def peer_handler(peer, t, src, f, raw):
             if f and f["type"] == R.CON and f["code"] != 0 and (f["code"] >> 5) != 0:
-                peer.send(src, R.msg(R.ACK, 0, f["mid"]))
+                # (possibly late: separate responses to the same peer then queue up behind each other)
+                peer.send(src, R.msg(R.ACK, 0, f["mid"]), case.get("peer_ack_delay", 0.0))
 
         peers = [net.add_raw("p%d" % i, ip, port, handler=peer_handler) for i, (ip, port) in enumerate(PEERS)]
 
@@ -138,6 +139,15 @@ def run_case(case, want_trace=False):
             options = [(R.O_URI_PATH, path)]
             if rq.get("noresp") is not None:
                 options.append((R.O_NO_RESPONSE, rq["noresp"]))
+            # options that must not change anything about the outcome: Observe on a resource that is not observable,
+            # a Block2 request for block 0 at a size the small bodies fit into, an Accept the handlers ignore
+            if rq.get("extra") == "observe":
+                options.append((R.O_OBSERVE, 0))
+            elif rq.get("extra") == "block2":
+                options.append((R.O_BLOCK2, (0, False, 6)))
+            elif rq.get("extra") == "accept":
+                options.append((R.O_ACCEPT, 0))
+            options.sort(key=lambda o: o[0])
             peers[rq["peer"]].send(A, R.msg(R.CON if rq["con"] else R.NON, rq["method"], 0x5000 + i, bytes([0xC0 + i, 0x33]), options))
 
         for i, rq in enumerate(reqs):
@@ -235,9 +245,10 @@ def _case(draw):
             "outcome": draw(_outcome),
             "delay": draw(st.sampled_from([0, 0, 0.05, 0.3])),
             "noresp": draw(st.sampled_from([None, None, None, 2, 8, 16, 26])),
+            "extra": draw(st.sampled_from([None, None, None, "observe", "block2", "accept"])),
         }
         reqs.append(rq)
-    return {"requests": reqs, "rng": draw(st.integers(0, 99))}
+    return {"requests": reqs, "rng": draw(st.integers(0, 99)), "peer_ack_delay": draw(st.sampled_from([0.0, 0.0, 0.3, 1.0]))}
 
 
 def selftest():
